@@ -6,6 +6,7 @@ import PercevalModel.Model.C11Regroup
 import PercevalModel.Model.C11Deep
 import PercevalModel.Model.C11Chain
 import PercevalModel.Model.C11Mixed
+import PercevalModel.Model.C11Nest
 
 open Lean PM PM.Proto PM.C11
 
@@ -517,6 +518,41 @@ def doMChain (j : Json) : Except String Json := do
     out := out.push (msJson m st (i == stepsJ.size))
   return Json.mkObj [("trace", Json.arr out)]
 
+/-- the items of a component list -/
+def itsToList : Its GQ → List (ℕ × Cmp GQ)
+  | .nil => []
+  | .cons o c r => (o, c) :: itsToList r
+
+/-- `"swap"` for the two-mode unitary with the matrix of `PERM([1, 0])`, `"leaf"` for any other leaf -/
+def leafKind : Cmp GQ → String
+  | .leaf (.un k U) =>
+      if h : k = 2 then
+        let V : Matrix (Fin 2) (Fin 2) GQ := h ▸ U
+        if V 0 0 == 0 && V 0 1 == 1 && V 1 0 == 1 && V 1 1 == 0 then "swap" else "leaf"
+      else "leaf"
+  | .leaf _ => "leaf"
+  | .circ _ _ => "circ"
+
+def nestJson (p : ℕ × Cmp GQ) : Json :=
+  match p.2 with
+  | .circ n its =>
+      Json.mkObj [("r0", toJson p.1), ("w", toJson n),
+        ("circ", Json.arr ((itsToList its).map fun q =>
+          Json.mkObj [("r0", toJson q.1), ("w", toJson q.2.size), ("k", toJson (leafKind q.2))]).toArray)]
+  | c => Json.mkObj [("r0", toJson p.1), ("w", toJson c.size), ("k", toJson (leafKind c))]
+
+/-- `{"op": "decompnest", "m": m, "merge": b, "state": [...]}`: the component list `decompose_perms(circuit, merge)`
+builds (`MS.decompTree`), nesting included, and its flattened view (`MS.decomp`) -/
+def doDecompNest (j : Json) : Except String Json := do
+  let m ← natOf j "m"
+  if m = 0 then throw "AssertionError"
+  let st ← (← arrOf j "state").toList.mapM fkOf
+  if st.any (fun p => p.1 + p.2.size > m ∨ p.2.size = 0) then throw "AssertionError"
+  let merge ← (← j.getObjVal? "merge").getBool?
+  let tree := MS.decompTree merge Prod.snd st
+  return Json.mkObj [("items", Json.arr (tree.map nestJson).toArray),
+    ("flat", Json.arr ((MS.decomp st).map fun p => Json.arr #[toJson p.1, toJson p.2.size]).toArray)]
+
 def handle (j : Json) : Json :=
   match (do
     let op ← strOf j "op"
@@ -531,6 +567,7 @@ def handle (j : Json) : Json :=
     | "deepcopy" => doDeepCopy j
     | "chain" => doChain j
     | "mchain" => doMChain j
+    | "decompnest" => doDecompNest j
     | _ => throw "unknown op" : Except String Json) with
   | .ok r => r
   | .error e => errJson e
